@@ -15,7 +15,8 @@ HALF_LOG_EPS = -0.5 * math.log(2.2204460492503131e-16)   # 18.02: GEV surv/logsu
 
 # relative tolerance of the closed-form comparison per family: the code's own small-x switches cost 2.5e-9, the
 # cancellation next to a switch ~2e-8; esl_stats_IncompleteGamma stops at 1e-7, esl_stats_LogGamma carries a 9-digit constant
-RELTOL = {"exp": 1e-7, "gumbel": 1e-7, "gev": 1e-7, "wei": 1e-7, "sxp": 3e-6, "gam": 3e-6, "normal": 1e-9, "lognormal": 1e-9}
+RELTOL = {"exp": 1e-7, "gumbel": 1e-7, "gev": 1e-7, "wei": 1e-7, "sxp": 3e-6, "gam": 3e-6, "normal": 1e-9, "lognormal": 1e-9,
+          "hxp": 1e-7, "mixgev": 1e-7}
 
 Y_GRID = [0.0, 1e-300, 1e-100, 1e-30, 1e-20, 1e-17, 1e-16, 1e-15, 1e-12, 1e-10, 4e-9, 6e-9, 1e-8, 1e-6, 1e-4, 1e-3,
           0.01, 0.1, 0.3, 0.5, 0.7, 1.0, 1.5, 2.0, 2.9, 3.0, 4.0, 5.0, 7.0, 10.0, 15.0, 18.0, 18.1, 19.0, 19.2, 20.0, 25.0, 30.0,
@@ -27,6 +28,10 @@ LAM_GRID = [1e-3, 3e-3, 0.01, 0.03, 0.1, 0.3, 0.7, 1.0, 2.0, 5.0, 10.0, 30.0, 10
 TAU_GRID = [0.05, 0.1, 0.2, 0.3, 0.5, 0.7, 0.9, 1.0, 1.1, 1.5, 2.0, 3.0, 5.0, 10.0, 20.0]
 ALPHA_GRID = [1e-15, 1e-13, 9.9e-13, 1e-12, 1.1e-12, 1e-11, 1e-9, 1e-7, 1e-5, 1e-3, 0.01, 0.1, 0.3, 0.5, 1.0, 2.0]
 MU_GRID = [0.0, 0.0, 0.0, 1.0, -1.0, 1e-3, -1e-3, 10.0, -20.0, 100.0, -1e3, 1e3]
+
+
+def _mixop(fam, fn, x, **kw):
+    return "mix fam=%s fn=%s x=%s %s" % (fam, fn, dhex(x), " ".join("%s=%s" % (k, ",".join(dhex(float(v)) for v in vs)) for k, vs in kw.items()))
 
 
 def op_f(fn, args):
@@ -44,6 +49,19 @@ def parse_out(line):
     if not line.startswith("ok "):
         return None
     return [unhex(t) for t in line[3:].split(",") if t]
+
+
+# genuine defects found while building this check, not yet repaired in /repo: (key, witness ops). See known_findings.d/C10.json.
+KNOWN = [
+    ("C10:esl_gam_logpdf:support-test-on-x", ["f fn=esl_gam_logpdf a=%s" % ",".join(dhex(v) for v in (-1.0, -5.0, 1.0, 2.0)),
+                                               "f fn=esl_gam_logpdf a=%s" % ",".join(dhex(v) for v in (0.5, 2.0, 1.0, 2.0))]),
+    ("C10:esl_gam_pdf:nan-at-mu-tau1", ["f fn=esl_gam_pdf a=%s" % ",".join(dhex(v) for v in (3.0, 3.0, 2.0, 1.0))]),
+    ("C10:esl_gam_invcdf:bracket-from-zero", ["f fn=esl_gam_invcdf a=%s" % ",".join(dhex(v) for v in (0.01, -10.0, 1.0, 1.0))]),
+    ("C10:esl_mixgev_invcdf:bracketing", [_mixop("mixgev", "invcdf", 0.5, q=[1.0], mu=[0.0], l=[1.0], al=[0.0]),
+                                          _mixop("mixgev", "invcdf", 0.01, q=[1.0], mu=[0.0], l=[1.0], al=[0.0])]),
+    ("C10:esl_hxp_invcdf:no-progress-loop", [_mixop("hxp", "invcdf", 1e-6, mu=[100.0], q=[1.0], l=[1000.0])]),
+    ("C10:esl_sxp_invcdf:no-progress-loop", ["f fn=esl_sxp_invcdf a=%s" % ",".join(dhex(v) for v in (1e-6, -1000.0, 24.6, 1.77))]),
+]
 
 
 class C10(Prop):
@@ -82,11 +100,29 @@ class C10(Prop):
     thorough_budget_s = 900
 
     families_T = ("exp", "gumbel", "gev", "wei")        # translated + executed bit-for-bit
+    families_M = ("sxp", "gam", "normal", "lognormal")  # scalar API, monitored (and translated where TRANSLATED says so)
 
     def generated(self, ctx):
         text, info = c2lean.translate_all(ctx.src, c2lean.FAMILIES)
         self.tinfo = info
         return {"EaselModel/Generated/Dist.lean": text}
+
+    def compare(self, ctx, case, impl_out, model_out):
+        """bit-exact, except that operations on functions outside the translated set are monitor-only: the driver answers
+           `unmodelled` there.  A function that IS in the translated set must be answered by the model."""
+        must = set(getattr(self, "tinfo", {}).get("functions", []))
+        n = max(len(impl_out), len(model_out))
+        for i in range(n):
+            a = impl_out[i] if i < len(impl_out) else "<missing>"
+            b = model_out[i] if i < len(model_out) else "<missing>"
+            if b == "unmodelled" and i < len(case["ops"]):
+                kind, kv, _ = parse_op(case["ops"][i])
+                fns = kv.get("fn", "").split(",")
+                if kind in ("mix", "mixsample") or not any(f in must for f in fns):
+                    continue
+            if a != b:
+                return (i, a, b)
+        return None
 
     # ------------------------------------------------------------------------------------------
     # generator
@@ -156,6 +192,8 @@ class C10(Prop):
                     ys.add(xk)
             ys.add(mu + v * (1 + 1e-9) * scale); ys.add(mu + v * (1 - 1e-9) * scale)
         grid = rng.sample(Y_GRID, min(n_grid, len(Y_GRID)))
+        if fam in ("sxp", "gam"):       # y^tau must stay inside binary64 for the incomplete-gamma argument
+            grid = [v for v in grid if v == 0.0 or 1e-30 <= v <= 1e4]
         onesided = fam in ("exp", "wei", "sxp", "gam")
         for v in grid:
             ys.add(mu + v * scale)
@@ -169,6 +207,8 @@ class C10(Prop):
             b = mu - 1.0 / (par[2] * lam)
             for f in (0.5, 0.9, 0.999, 1.001, 1.1, 2.0):
                 ys.add(mu + (b - mu) * f)
+        if fam == "sxp":                # y^tau must stay inside binary64 (it is the incomplete-gamma argument)
+            ys = {v for v in ys if v <= mu or (v - mu) * lam <= 0 or abs(par[2] * math.log10((v - mu) * lam)) < 290}
         return sorted(v for v in ys if math.isfinite(v))
 
     def make_case(self, fam, par, rng, name, n_grid=12, n_rand=6, n_p=8, deriv=2, samples=True):
@@ -177,6 +217,8 @@ class C10(Prop):
         xs = self.x_points(fam, par, rng, n_grid, n_rand)
         for x in xs:
             for w in xn:
+                if fam == "gam" and self.known_gam(w, x, par):
+                    continue
                 ops.append(op_f(pre + w, [x] + par))
         # derivative triples in the bulk
         if "cdf" in xn and deriv:
@@ -199,11 +241,76 @@ class C10(Prop):
             for _ in range(3):
                 x = float(R.reference_all(fam, "p", [rng.uniform(0.05, 0.95)] + par)["invcdf"][0])
                 ops.append("f2 fn=%sinvcdf,%scdf a=%s" % (pre, pre, ",".join(dhex(v) for v in [x] + par)))
+        if fam in ("sxp", "gam") and par[0] == 0.0:          # known findings: bisection inverses need mu = 0 (see KNOWN)
+            for p in [0.5, rng.random(), rng.choice([1e-6, 1e-3, 0.01, 0.1, 0.9, 0.99, 0.999999])]:
+                ops.append(op_f(pre + "invcdf", [p] + par))
         if samples and fam in ("exp", "gumbel", "gev", "wei"):
             seed = rng.choice([1, 42, 2 ** 32 - 1, rng.randrange(1, 2 ** 32)])
             k = rng.choice([1, 3, 8])
             ops.append("unipos seed=%d k=%d" % (seed, k))
             ops.append("sample fn=%sSample seed=%d k=%d a=%s" % (pre, seed, k, ",".join(dhex(v) for v in par)))
+        return {"name": name, "ops": ops, "sticky": 0}
+
+    @staticmethod
+    def known_gam(which, x, par):
+        """arguments in the region of the known findings on esl_gam_logpdf / esl_gam_pdf (kept out of generated cases)"""
+        if which == "logpdf" and (x < 0.0 or x < par[0]):
+            return True
+        if which in ("pdf", "logpdf") and x == par[0] and par[2] == 1.0:
+            return True
+        return False
+
+    def mix_params(self, fam, rng):
+        K = rng.randrange(1, 6)
+        q = [rng.choice([0.0, rng.random(), rng.random(), self.logu(rng, 1e-6, 1.0)]) for _ in range(K)]
+        if sum(q) == 0:
+            q[rng.randrange(K)] = 1.0
+        t = sum(q)
+        q = [v / t for v in q]
+        if fam == "hxp":
+            mu = rng.choice(MU_GRID)
+            lam = [rng.choice(LAM_GRID) if rng.random() < 0.5 else self.logu(rng, 1e-3, 1e3) for _ in range(K)]
+            return {"q": q, "mu": [mu], "l": lam}
+        mu = [rng.choice([0.0, 1.0, -1.0, 5.0, -20.0, rng.uniform(-10, 10)]) for _ in range(K)]
+        lam = [rng.choice([0.1, 0.5, 1.0, 2.0, 10.0, self.logu(rng, 1e-2, 1e2)]) for _ in range(K)]
+        al = [rng.choice([1e-13, -1e-13, 0.1, -0.1, 0.5, -0.5, 1e-3, -1e-3, 1.0, self.logu(rng, 1e-6, 1.0) * rng.choice([-1, 1])]) for _ in range(K)]
+        return {"q": q, "mu": mu, "l": lam, "al": al}
+
+    def mix_args(self, fam, mp_):
+        def L(v):
+            return ",".join(dhex(x) for x in v)
+        if fam == "hxp":
+            return "mu=%s q=%s l=%s" % (dhex(mp_["mu"][0]), L(mp_["q"]), L(mp_["l"]))
+        return "q=%s mu=%s l=%s al=%s" % (L(mp_["q"]), L(mp_["mu"]), L(mp_["l"]), L(mp_["al"]))
+
+    def make_mix_case(self, fam, rng, name, n_x=14):
+        mp_ = self.mix_params(fam, rng)
+        args = self.mix_args(fam, mp_)
+        K = len(mp_["q"])
+        xs = set()
+        for k in range(K):
+            mu = mp_["mu"][0] if fam == "hxp" else mp_["mu"][k]
+            sc = 1.0 / mp_["l"][k]
+            for v in rng.sample(Y_GRID, 5) + [rng.uniform(0, 8), self.logu(rng, 1e-10, 700.0)]:
+                xs.add(mu + v * sc)
+                if fam == "mixgev" or rng.random() < 0.1:
+                    xs.add(mu - v * sc)
+            for kk in (-1, 0, 1):
+                xs.add(nextafter(mu, kk))
+            if fam == "mixgev":
+                b = mu - sc / mp_["al"][k]
+                if math.isfinite(b):
+                    xs.update([b, nextafter(b, 2), nextafter(b, -2), mu + (b - mu) * 0.9, mu + (b - mu) * 1.1])
+        xs = sorted(v for v in xs if math.isfinite(v))
+        if len(xs) > n_x * 2:
+            xs = sorted(rng.sample(xs, n_x * 2))
+        ops = []
+        for x in xs:
+            for w in ("pdf", "logpdf", "cdf", "logcdf", "surv", "logsurv"):
+                ops.append("mix fam=%s fn=%s x=%s %s" % (fam, w, dhex(x), args))
+        if fam == "hxp" and mp_["mu"][0] == 0.0:             # known findings: see KNOWN (mixgev inverse: never terminates / wrong)
+            for p in (0.5, rng.random(), rng.choice([1e-6, 1e-3, 0.01, 0.1, 0.9, 0.99, 0.9999])):
+                ops.append("mix fam=%s fn=invcdf x=%s %s" % (fam, dhex(p), args))
         return {"name": name, "ops": ops, "sticky": 0}
 
     def corpus(self, ctx):
@@ -220,6 +327,8 @@ class C10(Prop):
         out.append({"name": "fixed-gev-logsurv-frechet", "ops": [op_f("esl_gev_logsurv", [-10.0, 0.0, 1.0, 0.5]), op_f("esl_gev_surv", [-10.0, 0.0, 1.0, 0.5])]})
         out.append({"name": "fixed-gumbel-invsurv", "ops": [op_f("esl_gumbel_invsurv", [p, -20.0, 0.7]) for p in (1e-12, 1e-16, 1e-20, 1e-300)] +
                     ["f2 fn=esl_gumbel_surv,esl_gumbel_invsurv a=%s" % ",".join(dhex(v) for v in (p, -20.0, 0.7)) for p in (1e-12, 1e-16, 1e-20)]})
+        for key, ops in KNOWN:
+            out.append({"name": "known-" + key, "ops": ops, "known_key": key})
         return out
 
     def cases(self, ctx):
@@ -231,6 +340,15 @@ class C10(Prop):
             fam = fams[i % len(fams)]
             par = self.params(fam, rng, canonical=(rng.random() < 0.1))
             out.append(self.make_case(fam, par, rng, "gen%d-%s" % (i, fam)))
+        nm = 60 if ctx.tier == "quick" else 1200
+        for i in range(nm):
+            fam = self.families_M[i % len(self.families_M)]
+            par = self.params(fam, rng, canonical=(rng.random() < 0.15))
+            heavy = fam in ("sxp", "gam")
+            out.append(self.make_case(fam, par, rng, "gen%d-%s" % (i, fam), n_grid=6 if heavy else 14, n_rand=4 if heavy else 8, deriv=1))
+        for i in range(40 if ctx.tier == "quick" else 600):
+            fam = ("hxp", "mixgev")[i % 2]
+            out.append(self.make_mix_case(fam, rng, "mix%d-%s" % (i, fam)))
         return out
 
     # ------------------------------------------------------------------------------------------
@@ -252,15 +370,64 @@ class C10(Prop):
             res = parse_out(line)
             if res is None:
                 return Failure("monitor", "operation %r answered %r" % (op, line))
+            if kind == "mix":
+                fam, which = kv["fam"], kv["fn"]
+                L = lambda k: [unhex(t) for t in kv[k].split(",")]
+                q, lam = L("q"), L("l")
+                if fam == "hxp":
+                    mu0 = unhex(kv["mu"])
+                    comps = [(q[k], "exp", [mu0, lam[k]]) for k in range(len(q))]
+                    par = ("hxp", kv["mu"], kv["q"], kv["l"])
+                else:
+                    mus, als = L("mu"), L("al")
+                    comps = [(q[k], "gev", [mus[k], lam[k], als[k]]) for k in range(len(q))]
+                    par = ("mixgev", kv["q"], kv["mu"], kv["l"], kv["al"])
+                x = unhex(kv["x"])
+                if which == "invcdf":
+                    xr, p = res[0], x
+                    cen = mu0 if fam == "hxp" else 0.0
+                    d = 2.5e-6 * (abs(xr - cen) + 1e-9) + 4 * 2.0 ** -52 * abs(xr)
+                    ok, lo, hi = R.quantile_ok(xr, p, lambda z: R.mix_reference(z, comps)["cdf"], d)
+                    if not ok:
+                        return Failure("monitor", "esl_%s_invcdf(p = %r) = %r but the mixture cdf there is in [%s, %s]; %s" % (
+                            fam if fam == "hxp" else "mixgev", p, xr, R.mpmath.nstr(lo, 12), R.mpmath.nstr(hi, 12), op))
+                    continue
+                band = R.mix_reference(x, comps)[which]
+                if which.startswith("log") and band[0] < -1e15 and res[0] == -math.inf:
+                    continue        # esl_vec_DLogSum: `vec[i] > max - 500` absorbs for |max| > 2^53*500; far outside any range of use
+                # the mixture coefficients sum to 1 only to rounding: log versions carry that absolutely
+                why = R.judge(res[0], band, RELTOL[fam], 4.5e-16 if which.startswith("log") else 0.0)
+                if why:
+                    return Failure("monitor", "esl_%s_%s(x = %r) = %r but the closed form gives %s: %s; %s" % (
+                        fam if fam == "hxp" else "mixgev", which, x, res[0], R.mpmath.nstr(band[0], 17), why, op))
+                pts.setdefault((fam, par), {}).setdefault(x, {})[which] = res[0]
+                if R.mpmath.isfinite(band[1]) and R.mpmath.isfinite(band[2]):
+                    widths.setdefault((fam, par), {}).setdefault(x, {})[which] = float(band[2] - band[1])
+                continue
             if kind == "f":
                 fam, which = R.split_fn(kv["fn"])
                 if fam is None:
                     continue
                 fx = R.FAMILY[fam]
+                if which == "invcdf" and fam in ("sxp", "gam"):       # bisection to 1e-6
+                    xr, p = res[0], a[0]
+                    d = 2.5e-6 * (abs(xr - a[1]) if fam == "sxp" else abs(xr)) + 4 * 2.0 ** -52 * abs(xr)
+                    ok, lo, hi = R.quantile_ok(xr, p, lambda z: R.reference_all(fam, "x", [z] + a[1:])["cdf"], d, slack=4 * RELTOL[fam])
+                    if not ok:
+                        return Failure("monitor", "%s(p = %r; %r) = %r but the cdf there is in [%s, %s]" % (
+                            kv["fn"], p, a[1:], xr, R.mpmath.nstr(lo, 12), R.mpmath.nstr(hi, 12)))
+                    continue
                 isx = which in fx[4]
                 band = R.reference_all(fam, "x" if isx else "p", a)[which]
                 ref = band[0]
-                why = R.judge(res[0], band, RELTOL[fam])
+                floor = 0.0
+                if fam in ("sxp", "gam") and which in ("logcdf", "logsurv"):
+                    # these two families take log() of the plain value (P = 1-Q or Q = 1-P formed in binary64): they are as
+                    # accurate as the plain value is, not more: absolute 2^-52 next to 0, nothing below the denormal range
+                    floor = 4.5e-16
+                    if ref < -690 and (res[0] < -690):
+                        continue
+                why = R.judge(res[0], band, RELTOL[fam], floor)
                 if why:
                     return Failure("monitor", "%s(%s) = %r but the closed form gives %s: %s" % (
                         kv["fn"], ", ".join(repr(v) for v in a), res[0], R.mpmath.nstr(ref, 17), why))
@@ -335,22 +502,26 @@ class C10(Prop):
                             slack = 4 * rt * max(abs(pv), abs(v[w])) if math.isfinite(pv) and math.isfinite(v[w]) else 0.0
                             wd = widths.get((fam, par), {})
                             slack += wd.get(x, {}).get(w, 0.0) + wd.get(px, {}).get(w, 0.0)
+                            if fam in ("hxp", "mixgev"):
+                                slack += 4.5e-16          # coefficients sum to 1 only to rounding
                             if sgn * (v[w] - pv) < -slack:
                                 return Failure("monitor", "%s: %s not monotone: %r at x = %r, %r at x = %r, parameters %r" % (fam, w, pv, px, v[w], x, list(par)))
                         last[w] = (x, v[w])
-                if "cdf" in v and not (0.0 <= v["cdf"] <= 1.0):
+                if "cdf" in v and not (0.0 <= v["cdf"] <= (1.0 + 1e-15 if fam in ("hxp", "mixgev") else 1.0)):
                     return Failure("monitor", "%s: cdf = %r outside [0,1] at x = %r, parameters %r" % (fam, v["cdf"], x, list(par)))
                 if "surv" in v and not (0.0 <= v["surv"] <= 1.0 + 1e-15):
                     return Failure("monitor", "%s: surv = %r outside [0,1] at x = %r, parameters %r" % (fam, v["surv"], x, list(par)))
                 if "pdf" in v and not (v["pdf"] >= 0.0):
                     return Failure("monitor", "%s: pdf = %r at x = %r, parameters %r" % (fam, v["pdf"], x, list(par)))
             # pdf = d cdf / dx (central difference, bulk only)
+            if fam in ("hxp", "mixgev", "lognormal"):
+                continue
             scale = par[1] if fam == "normal" else 1.0 / par[1]
             h = scale * 2.0 ** -17
             for x in xs:
                 v = byx[x]
                 lo, hi = byx.get(x - h), byx.get(x + h)
-                if "pdf" in v and lo and hi and "cdf" in lo and "cdf" in hi and "cdf" in v and 0.02 < v["cdf"] < 0.98:
+                if "pdf" in v and lo and hi and "cdf" in lo and "cdf" in hi and "cdf" in v and 0.02 < v["cdf"] < 0.98 and (x + h) - (x - h) > 0:
                     d = (hi["cdf"] - lo["cdf"]) / ((x + h) - (x - h))
                     wd = widths.get((fam, par), {})
                     noise = (wd.get(x - h, {}).get("cdf", 0.0) + wd.get(x + h, {}).get("cdf", 0.0)) / (2 * h)
